@@ -108,6 +108,10 @@ class Closure:
 
     def __init__(self, node, env, ex):
         self.node, self.env = node, env
+        a = node.args
+        # default values are evaluated once, when the function object is made (Python semantics)
+        self.defaults = [ex.ev(d, env) for d in a.defaults]
+        self.kw_defaults = {k.arg: ex.ev(d, env) for k, d in zip(a.kwonlyargs, a.kw_defaults) if d is not None}
 
 
 class SymStr:
@@ -431,9 +435,24 @@ def binop(ex, op, l, r, node):
         if res is not NotImplemented:
             return res
     num = (int, float, z3.ArithRef)
+    if op in _ARITH and isinstance(l, num + (z3.BoolRef,)) and isinstance(r, num + (z3.BoolRef,)) and \
+            (isinstance(l, (bool, z3.BoolRef)) or isinstance(r, (bool, z3.BoolRef))) and not (isinstance(l, bool) and isinstance(r, bool)):
+        # a truth value in arithmetic counts as 0 / 1
+        l = z3.If(l, 1, 0) if isinstance(l, z3.BoolRef) else int(l) if isinstance(l, bool) else l
+        r = z3.If(r, 1, 0) if isinstance(r, z3.BoolRef) else int(r) if isinstance(r, bool) else r
     if isinstance(l, num) and isinstance(r, num) and not isinstance(l, bool) and not isinstance(r, bool):
         if op in _ARITH:
             return _ARITH[op](l, r)
+        if op in ("FloorDiv", "Mod") and _intlike(l) and _intlike(r) and not (isinstance(l, int) and isinstance(r, int)):
+            # Python: the quotient is rounded towards minus infinity and the remainder has the sign of the divisor.  z3's integer
+            # division rounds so that the remainder is non-negative, which is floor division exactly for a positive divisor.
+            from .sx import RaiseSig
+            L = l if isinstance(l, z3.ExprRef) else z3.IntVal(l)
+            R = r if isinstance(r, z3.ExprRef) else z3.IntVal(r)
+            if ex.decide(R == 0, "division.by_zero"):
+                raise RaiseSig("ZeroDivisionError", node, "integer division or modulo by zero")
+            q = z3.If(R > 0, L / R, (-L) / (-R))
+            return q if op == "FloorDiv" else L - R * q
         if op == "FloorDiv" and isinstance(l, int) and isinstance(r, int):
             return l // r
         if op == "Mod" and isinstance(l, int) and isinstance(r, int):
@@ -466,6 +485,10 @@ def binop(ex, op, l, r, node):
     raise U(f"binary {op} on {type(l).__name__}, {type(r).__name__}", node)
 
 
+def _intlike(v):
+    return (isinstance(v, int) and not isinstance(v, bool)) or (isinstance(v, z3.ArithRef) and v.is_int())
+
+
 def augassign(ex, op, cur, rhs, node):
     if hasattr(cur, "sx_inplace"):
         return cur.sx_inplace(ex, op, rhs, node)
@@ -477,6 +500,8 @@ def unop(ex, op, v, node):
         return v.sx_unop(ex, op, node)
     if op == "USub" and isinstance(v, (int, float, z3.ArithRef)):
         return -v
+    if op == "UAdd" and isinstance(v, (int, float, z3.ArithRef)) and not isinstance(v, bool):
+        return v
     raise U(f"unary {op} on {type(v).__name__}", node)
 
 
@@ -519,7 +544,23 @@ def compare(ex, op, l, r, node):
     if isinstance(l, (FnRef, TypeRef)) or isinstance(r, (FnRef, TypeRef)):
         if op in ("Eq", "NotEq"):
             return pyops[op](l, r)
+    if isinstance(l, tuple) and isinstance(r, tuple) and all(isinstance(x, num) and not isinstance(x, bool) for x in l + r):
+        # tuples of numbers: equality item by item, order lexicographic (a proper prefix is smaller)
+        if op in ("Eq", "NotEq"):
+            eq = z3.BoolVal(False) if len(l) != len(r) else z3.And(*[_as_bool(a == b) for a, b in zip(l, r)]) if l else z3.BoolVal(True)
+            return simplify_bool(eq if op == "Eq" else z3.Not(eq))
+
+        def less(a, b, strict):
+            if not a or not b:
+                return z3.BoolVal(len(a) < len(b) if strict else len(a) <= len(b))
+            return z3.Or(_as_bool(a[0] < b[0]), z3.And(_as_bool(a[0] == b[0]), less(a[1:], b[1:], strict)))
+        res = {"Lt": lambda: less(l, r, True), "LtE": lambda: less(l, r, False), "Gt": lambda: less(r, l, True), "GtE": lambda: less(r, l, False)}[op]()
+        return simplify_bool(res)
     raise U(f"comparison {op} on {type(l).__name__}, {type(r).__name__}", node)
+
+
+def _as_bool(v):
+    return z3.BoolVal(v) if isinstance(v, bool) else v
 
 
 def _all_concrete(v):
@@ -653,11 +694,25 @@ def call_closure(ex, clo, args, kw, node):
     from .sx import ReturnSig
     n = clo.node
     env = dict(clo.env)
-    params = [a.arg for a in n.args.args]
-    if len(args) > len(params) or kw:
-        raise U("closure call with keywords/varargs", node)
-    for p, a in zip(params, args):
-        env[p] = a
+    a = n.args
+    if a.vararg or a.kwarg or a.posonlyargs:
+        raise U("closure with *args / **kwargs / positional-only parameters", node)
+    params = [x.arg for x in a.args]
+    kwonly = [x.arg for x in a.kwonlyargs]
+    kw = {k: v for k, v in kw.items() if k != "**"} if isinstance(kw, dict) else kw
+    if len(args) > len(params) or any(k not in params + kwonly for k in kw):
+        raise U("closure call with surplus arguments", node)
+    bound = dict(zip(params[len(params) - len(clo.defaults):], clo.defaults)) if clo.defaults else {}
+    bound.update(clo.kw_defaults)
+    bound.update(zip(params, args))
+    for k, v in kw.items():
+        if k in params[: len(args)]:
+            raise U("closure call binding a parameter twice", node)
+        bound[k] = v
+    missing = [p_ for p_ in params + kwonly if p_ not in bound]
+    if missing:
+        raise U(f"closure call without {missing}", node)
+    env.update(bound)
     if isinstance(n, ast.Lambda):
         return ex.ev(n.body, env)
     try:
